@@ -15,7 +15,9 @@
 package yamlpc
 
 import (
+	"fmt"
 	"io"
+	"reflect"
 
 	"github.com/go-openapi/runtime"
 	"gopkg.in/yaml.v3"
@@ -24,6 +26,11 @@ import (
 // YAMLConsumer creates a consumer for yaml data
 func YAMLConsumer() runtime.Consumer {
 	return runtime.ConsumerFunc(func(r io.Reader, v interface{}) error {
+		// yaml.v3 panics (reflect) on these instead of returning an error
+		if rv := reflect.ValueOf(v); !rv.IsValid() || (rv.Kind() == reflect.Ptr && rv.IsNil()) ||
+			(rv.Kind() != reflect.Ptr && rv.Kind() != reflect.Map) {
+			return fmt.Errorf("yaml consumer: destination must be a non-nil pointer or a map, got %T", v)
+		}
 		dec := yaml.NewDecoder(r)
 		return dec.Decode(v)
 	})
